@@ -17,6 +17,8 @@ pub enum Kind {
     CpUpdate,
     CpDelete,
     OutDelete,
+    /// `out delete` without --all: removes nothing, only measures - and is still one of the mutating APIs that take the lock
+    OutMeasure,
 }
 #[derive(Serialize, Deserialize, Clone, Copy, Debug, PartialEq)]
 pub enum End {
@@ -77,6 +79,7 @@ fn kind_args(k: Kind, spec: &WorldSpec) -> Vec<String> {
         Kind::CpUpdate => vec!["checkpoint".into(), "update".into(), "--id".into(), "from-contender".into()],
         Kind::CpDelete => vec!["checkpoint".into(), "delete".into()],
         Kind::OutDelete => vec!["out".into(), "delete".into(), "--all".into()],
+        Kind::OutMeasure => vec!["out".into(), "delete".into()],
     }
 }
 
@@ -103,7 +106,7 @@ fn gen_c14(seed: u64, idx: usize, _tier: Tier) -> C14Scenario {
     };
     let nb = rng.range(1, 4);
     let nd = rng.range(2, 4);
-    C14Scenario {
+    let mut sc = C14Scenario {
         spec,
         first,
         hold_at_child,
@@ -118,7 +121,29 @@ fn gen_c14(seed: u64, idx: usize, _tier: Tier) -> C14Scenario {
         stray_connection: rng.chance(1, 3),
         hold_ms: if rng.chance(1, 8) { Some(*rng.pick(&[1150u32, 1400, 2300])) } else { None },
         blocked_stdout: if rng.chance(1, 8) { Some((rng.range(30, 60), (0..rng.range(1, 3)).map(|_| *rng.pick(&kinds)).collect())) } else { None },
+    };
+    // every third `out delete` comes without --all: it deletes nothing and still has to take its turn (own
+    // generator, so that existing seeds keep their scenarios otherwise)
+    let mut mrng = Rng::new(scenario_seed(seed, "C14-measure", idx));
+    let mut soften = |k: &mut Kind| {
+        if *k == Kind::OutDelete && mrng.chance(1, 3) {
+            *k = Kind::OutMeasure;
+        }
+    };
+    soften(&mut sc.first);
+    sc.phase_b.iter_mut().for_each(&mut soften);
+    if let Some(k) = sc.late.as_mut() {
+        soften(k);
     }
+    sc.phase_d.iter_mut().for_each(&mut soften);
+    soften(&mut sc.last);
+    if let Some(k) = sc.nested.as_mut() {
+        soften(k);
+    }
+    if let Some((_, ks)) = sc.blocked_stdout.as_mut() {
+        ks.iter_mut().for_each(&mut soften);
+    }
+    sc
 }
 
 fn snap(w: &World, without_run_dir: bool) -> BTreeMap<String, String> {
@@ -673,7 +698,7 @@ impl Property for C14 {
         outv
     }
     fn rule(&self) -> String {
-        "4-10 invocations drawn from {run, checkpoint update, checkpoint delete, out delete --all} on one lock address, over a repository that already has a checkpoint and a completed run: (A) one invocation alone, parked right after lock acquisition (a run holder is in half of the cases released and held at its first child instead); (B') in half of the scenarios one more contender is started and the holder is ended the moment that contender's failed bind() on the lock port has been observed through the shim: it must still exit with a lock error rather than wait its turn; (B) 1-4 contenders started back-to-back while the holder is past the lock: each must exit non-zero with a lock error, start no executable, and leave a content-hash snapshot of the output directory unchanged; (C) the holder ends by normal exit, a failing child, or SIGKILL while parked; (D) 2-4 contenders started together the instant after the reap: exactly one gets past the lock (which one is the kernel's choice and is not recorded), the others fail with a lock error; (E) one more, alone, must acquire at its first attempt. Non-trivial = >= 3 contenders of >= 2 kinds and the holder ended by SIGKILL or failure; distinct = the scenario tuple".into()
+        "4-10 invocations drawn from {run, checkpoint update, checkpoint delete, out delete --all, out delete (no --all: measures only, still a lock taker)} on one lock address; one scenario in four runs its invocations under wrong and jumping wall clocks, over a repository that already has a checkpoint and a completed run: (A) one invocation alone, parked right after lock acquisition (a run holder is in half of the cases released and held at its first child instead); (B') in half of the scenarios one more contender is started and the holder is ended the moment that contender's failed bind() on the lock port has been observed through the shim: it must still exit with a lock error rather than wait its turn; (B) 1-4 contenders started back-to-back while the holder is past the lock: each must exit non-zero with a lock error, start no executable, and leave a content-hash snapshot of the output directory unchanged; (C) the holder ends by normal exit, a failing child, or SIGKILL while parked; (D) 2-4 contenders started together the instant after the reap: exactly one gets past the lock (which one is the kernel's choice and is not recorded), the others fail with a lock error; (E) one more, alone, must acquire at its first attempt. Non-trivial = >= 3 contenders of >= 2 kinds and the holder ended by SIGKILL or failure; distinct = the scenario tuple".into()
     }
     fn components(&self) -> Value {
         json!({
